@@ -570,6 +570,16 @@ def _new_spec(spec, new):
     return s
 
 
+def _in_isclose_window(old, new):
+    """The new model differs from the old one, but only inside numpy.isclose's default window (finding K7, registered under C11:
+    generators compare their model copy with isclose and do not see such a change)."""
+    def par(sp):
+        return [float(sp["len_scale"])] + [float(a) for a in sp.get("anis", [])] + [float(a) for a in sp.get("angles", [])]
+
+    a, b = par(old), par(new)
+    return len(a) == len(b) and a != b and bool(np.all(np.isclose(a, b)))
+
+
 def check_history(case, rec):
     spec = case["spec"]
     dim = spec["dim"]
@@ -629,6 +639,9 @@ def check_history(case, rec):
                     if op["how"] == "copy":
                         srf.model = copy.deepcopy(srf.model)
                     else:
+                        if _in_isclose_window(ref.spec, _new_spec(ref.spec, op["new"])):
+                            rec.exclude("K7_isclose_window_model_change")
+                            continue
                         ref.spec = _new_spec(ref.spec, op["new"])
                         srf.model = build_model(ref.spec)
                 elif k == "call_seed":
@@ -645,6 +658,9 @@ def check_history(case, rec):
                         continue
                     ukw = {}
                     how = op["model"]
+                    if how == "new" and _in_isclose_window(ref.spec, _new_spec(ref.spec, op["new"])):
+                        rec.exclude("K7_isclose_window_model_change")
+                        continue
                     before = _base_field(srf, ref, case) if odd and how in ("none", "same", "copy") else None
                     rec.label(
                         "update_model_" + how + ("+seed" if op["seed"] is not None else "")
